@@ -76,8 +76,8 @@ func (m *C20) evalTriggers(w *chain.World, ctx sdk.Context, msg *tstypes.MsgExec
 		}
 		m.named[okey("spot", id)] = true
 		o, _ := k.GetPendingSpotOrder(ctx, id)
-		pin := w.App.AmmKeeper.CalculateUSDValue(ctx, o.OrderPrice.BaseDenom, math.NewInt(1))
-		pout := w.App.AmmKeeper.CalculateUSDValue(ctx, o.OrderPrice.QuoteDenom, math.NewInt(1))
+		pin, _ := chain.USDValueOfOne(w.App, ctx, o.OrderPrice.BaseDenom)
+		pout, _ := chain.USDValueOfOne(w.App, ctx, o.OrderPrice.QuoteDenom)
 		if pin.IsZero() || pout.IsZero() {
 			// no market rate can be formed (one side has neither a live oracle price nor a pool
 			// route to price it): no trigger condition is satisfied, the order must stay as it is
